@@ -34,7 +34,7 @@ pub mod serde_with;
 
 use serde::{Deserialize, Serialize};
 use std::collections::HashMap;
-use std::fmt::{self, Display, Write};
+use std::fmt::{self, Display};
 
 /// A convenience trait that can be used to build a GraphQL request body.
 ///
@@ -216,12 +216,9 @@ impl Display for Error {
             .map(|fragments| {
                 fragments
                     .iter()
-                    .fold(String::new(), |mut acc, item| {
-                        let _ = write!(acc, "{}/", item);
-                        acc
-                    })
-                    .trim_end_matches('/')
-                    .to_string()
+                    .map(ToString::to_string)
+                    .collect::<Vec<_>>()
+                    .join("/")
             })
             .unwrap_or_else(|| "<query>".to_string());
 
